@@ -80,6 +80,19 @@ fn wrap(x: f64) -> f64 {
 
 fn so2_cases(o: &mut Out, n: i64, tier: &str) {
     let sp = SO2StateSpace::new(None).unwrap();
+    so2_metric_cases(o, n, tier, &sp, "none");
+    // distance and interpolation are those of the circle whatever interval the space is bounded to
+    // (an interval wider than pi contains pairs whose shortest arc leaves it)
+    if n <= 12 || tier == "thorough" {
+        for (name, b) in [("(-3,3)", (-3.0, 3.0)), ("(-0.5,2)", (-0.5, 2.0))] {
+            let spb = SO2StateSpace::new(Some(b)).unwrap();
+            so2_metric_cases(o, n, tier, &spb, name);
+        }
+    }
+    so2_rest_cases(o, n, tier, &sp);
+}
+
+fn so2_metric_cases(o: &mut Out, n: i64, tier: &str, sp: &SO2StateSpace, bnd: &str) {
     let unit = 2.0 * PI / n as f64;
     // distance: all pairs, all representatives of a, exact b
     for a in 0..=n {
@@ -91,26 +104,12 @@ fn so2_cases(o: &mut Out, n: i64, tier: &str) {
                 let d = sp.distance(&sa, &sb);
                 let d2 = sp.distance(&sb, &sa);
                 let (k, r) = quant(d, unit, TOL * sc);
-                o.ev(json!({"ev": "sp", "sp": "so2", "op": "dist", "N": n, "a": a, "b": b, "rep": rn, "k": k, "resid": r,
+                o.ev(json!({"ev": "sp", "sp": "so2", "op": "dist", "N": n, "a": a, "b": b, "rep": rn, "k": k, "resid": r, "bnd": bnd,
                             "sym": (d - d2).abs() <= TOL * sc, "nonneg": d >= 0.0, "diam": d <= PI + TOL * sc,
                             "self0": sp.distance(&sa, &sa).abs() <= TOL * sc}));
             }
         }
     }
-    // triangle inequality on the implementation's own values, all triples
-    let mut worst = 0i64;
-    let mut cnt = 0usize;
-    for a in 0..=n {
-        for b in 0..=n {
-            for c in 0..=n {
-                let (sa, sb, sc) = (SO2State { value: so2_angle(a, n) }, SO2State { value: so2_angle(b, n) }, SO2State { value: so2_angle(c, n) });
-                let slack = sp.distance(&sa, &sc) - sp.distance(&sa, &sb) - sp.distance(&sb, &sc);
-                worst = worst.max((slack / TOL).ceil() as i64);
-                cnt += 1;
-            }
-        }
-    }
-    o.ev(json!({"ev": "sp", "sp": "so2", "op": "tri", "N": n, "triples": cnt, "worst": worst}));
     // interpolation
     for a in 0..=n {
         for b in 0..=n {
@@ -130,7 +129,7 @@ fn so2_cases(o: &mut Out, n: i64, tier: &str) {
                     sp.interpolate(&sb, &sa, 1.0 - t, &mut rev);
                     let dab = sp.distance(&sa, &sb);
                     let prop = (sp.distance(&sa, &out) - t * dab).abs().max((sp.distance(&out, &sb) - (1.0 - t) * dab).abs());
-                    o.ev(json!({"ev": "sp", "sp": "so2", "op": "interp", "N": n, "a": a, "b": b, "p": p, "q": q, "rep": rn,
+                    o.ev(json!({"ev": "sp", "sp": "so2", "op": "interp", "N": n, "a": a, "b": b, "p": p, "q": q, "rep": rn, "bnd": bnd,
                                 "k": k.rem_euclid(n * q as i64), "resid": r,
                                 "canon": out.value >= -PI && out.value <= PI,
                                 "rev": sp.distance(&out, &rev) <= TOL * sc * 8.0,
@@ -139,6 +138,26 @@ fn so2_cases(o: &mut Out, n: i64, tier: &str) {
             }
         }
     }
+    let _ = bnd;
+}
+
+fn so2_rest_cases(o: &mut Out, n: i64, tier: &str, sp: &SO2StateSpace) {
+    let unit = 2.0 * PI / n as f64;
+    let _ = (tier, unit);
+    // triangle inequality on the implementation's own values, all triples
+    let mut worst = 0i64;
+    let mut cnt = 0usize;
+    for a in 0..=n {
+        for b in 0..=n {
+            for c in 0..=n {
+                let (sa, sb, sc) = (SO2State { value: so2_angle(a, n) }, SO2State { value: so2_angle(b, n) }, SO2State { value: so2_angle(c, n) });
+                let slack = sp.distance(&sa, &sc) - sp.distance(&sa, &sb) - sp.distance(&sb, &sc);
+                worst = worst.max((slack / TOL).ceil() as i64);
+                cnt += 1;
+            }
+        }
+    }
+    o.ev(json!({"ev": "sp", "sp": "so2", "op": "tri", "N": n, "triples": cnt, "worst": worst}));
     // bounds: constructor over the lattice of bound pairs (indices may lie outside 0..n: beyond +-pi)
     let ext: Vec<i64> = vec![-n / 4, 0, n / 4, n / 2, 3 * n / 4, n, n + n / 4];
     for &lo in &ext {
@@ -468,6 +487,16 @@ fn t24() -> Vec<[i64; 4]> {
 
 fn so3_cases(o: &mut Out, m: i64, tier: &str) {
     let sp = SO3StateSpace::new(None).unwrap();
+    so3_axis_cases(o, m, tier, &sp);
+    // the metric and the geodesics are those of SO(3) whatever cone the space is bounded to
+    if m <= 12 || tier == "thorough" {
+        let spb = SO3StateSpace::new(Some((SO3State::identity(), 2.6))).unwrap();
+        so3_axis_cases(o, m, tier, &spb);
+    }
+    so3_group_cases(o, &sp);
+}
+
+fn so3_axis_cases(o: &mut Out, m: i64, tier: &str, sp: &SO3StateSpace) {
     let unit = 2.0 * PI / m as f64;
     for ax in 0..3usize {
         for a in 0..(2 * m) {
@@ -505,6 +534,9 @@ fn so3_cases(o: &mut Out, m: i64, tier: &str) {
             }
         }
     }
+}
+
+fn so3_group_cases(o: &mut Out, sp: &SO3StateSpace) {
     // binary tetrahedral group: exact distances in units of pi/3, triangle inequality on impl values
     let g = t24();
     let f = |u: &[i64; 4]| SO3State::new(u[0] as f64 / 2.0, u[1] as f64 / 2.0, u[2] as f64 / 2.0, u[3] as f64 / 2.0);
